@@ -14,7 +14,7 @@ for d in sys.argv[1:]:
             for p in props:
                 r = subprocess.run(["./check", p, "--tier", "quick"], cwd=V, capture_output=True, text=True, timeout=3600)
                 if r.returncode != 0:
-                    alarms.append(p + ": " + " | ".join(l[:200] for l in r.stdout.split("\n") if l.startswith(("VIOLATION", "CHECK-ERROR")))[:500])
+                    alarms.append(p + ": " + " | ".join(l[:200] for l in r.stdout.split("\n") if l.startswith(("VIOLATION", "CHECK-ERROR")))[:500] + (" <<" + (r.stdout + r.stderr)[-600:].replace("\n", " / ") + ">>" if "VIOLATION" not in r.stdout else ""))
         finally:
             subprocess.run("git -C %s checkout -- . && git -C %s clean -fdq" % (REPO, REPO), shell=True)
         print(diff, "QUIET" if not alarms else "ALARMS: " + " ;; ".join(alarms), flush=True)
